@@ -144,7 +144,7 @@ def mswitch(chk, prog):
     r = ev.eval_fn(fn, m)
     where = f"{m.rel}:{fn.lineno}"
     t = r.ret
-    pairs = ("call", G("list"), (("call", G("zip"), (P("branches"), P("arg_tuples")), ()),), ())
+    pairs = ("zip", (P("branches"), P("arg_tuples")))
     el = mk_elem(pairs)
     ok = is_call(t, "switch") and t[2][0] == P("idx")
     shapes = dict(t[3]).get("operand") if ok else None
@@ -155,7 +155,7 @@ def mswitch(chk, prog):
     setter = None
     if okf:
         body = fns[2]
-        clo = ev.closure_of(body)
+        clo = ev.closure_of(body) or (is_t(body, "partial") or None)
         if clo is not None:
             setter = ev.apply(body, [P("$shapes")], module=m)
     en = ("elem", ("enumerate", pairs))
